@@ -19,6 +19,7 @@ EXPLANATION = (
     "posterior update after a refit sits under a LinAlgError handler that restores the previous hyperparameters. R4 sibling fit calls agree on the shape of the fallback start. R5 the stored vector fit() falls back to when its s2 argument is None is thinned with X and Y, unless every caller passes <gp>.s2 of the surrogate the receiver is copied from. Decides the "
     "exception-handling structureDecides the "
     "exception-handling structure on all paths; whether the retried fit eventually succeeds is numeric and not decided."
+    " R6 operands of the thinning mask are computed from the current arrays. R7 a function that re-binds a surrogate's X or y re-binds the s2 of the same object."
 )
 
 BROAD = {"Exception", "BaseException"}
